@@ -193,3 +193,12 @@ Qed.
 Lemma peq_bind2 {A B C D E} (R : A -> B -> Prop) (S : D -> E -> Prop) p q (f : A -> prog C) (g : C -> prog D) h :
   peq R p q -> (forall a b, R a b -> peq S (pbind (f a) g) (h b)) -> peq S (pbind (pbind p f) g) (pbind q h).
 Proof. intros H Hf; induction H; cbn [pbind]; try constructor; auto. Qed.
+
+Lemma peq_trans_eq {A} (p q r : prog A) : peq eq p q -> peq eq q r -> peq eq p r.
+Proof.
+  intros H1 H2. eapply peq_mono; [|eapply peq_trans; eassumption].
+  intros a c (b & -> & ->). reflexivity.
+Qed.
+
+Lemma peq_sym_eq {A} (p q : prog A) : peq eq p q -> peq eq q p.
+Proof. intros H. eapply peq_mono; [|apply peq_sym; exact H]. intros a b ->. reflexivity. Qed.
